@@ -123,6 +123,8 @@ pub struct Sim {
     pub events: u64,
     /// what the engine is doing right now (part of the detail of fatal violations)
     pub context: String,
+    /// (heap id, peak accounted memory seen at a check_collect of that heap)
+    pub mem_watch: Option<(u32, usize)>,
 }
 
 static SIM: Mutex<Option<Sim>> = Mutex::new(None);
@@ -143,6 +145,7 @@ pub fn begin(tape: Tape) {
         ticks: BTreeMap::new(),
         events: 0,
         context: String::new(),
+        mem_watch: None,
     });
 }
 
@@ -195,8 +198,13 @@ pub fn flip(kind: &str, num: u32, den: u32) -> bool {
 // ---------------------------------------------------------------------------------------------
 // hook handlers
 
-fn gc_decide(_heap: u32, _allocated: usize, _limit: usize) -> bool {
+fn gc_decide(heap: u32, allocated: usize, _limit: usize) -> bool {
     try_with(|s| {
+        if let Some((h, peak)) = &mut s.mem_watch {
+            if *h == heap && allocated > *peak {
+                *peak = allocated;
+            }
+        }
         if !s.gc_active {
             return false;
         }
